@@ -85,3 +85,6 @@ func VerifSymMaps(env *Zlisp) (map[string]int, map[int]string) {
 	}
 	return a, b
 }
+
+// VerifSymLens returns len(symtable), len(revsymtable).
+func VerifSymLens(env *Zlisp) (int, int) { return len(env.symtable), len(env.revsymtable) }
